@@ -384,147 +384,181 @@ func merge(parts []*abs.Result) *abs.Result {
 	return res
 }
 
+type replayInput struct {
+	Path  string `json:"path"`
+	NK    int    `json:"nk"`
+	Gaps  []int  `json:"gaps"`
+	Label string `json:"label"`
+}
+
 func TestReplay(t *testing.T) {
-	in := os.Getenv("VERIF_IN")
-	nk := abs.EnvInt("VERIF_NK", 0)
 	part := os.Getenv("VERIF_PART") // c01: lookups for the four operations; c02: replication sets + Write lookups
-	var gaps []int
-	_ = json.Unmarshal([]byte(os.Getenv("VERIF_GAPS")), &gaps)
-	if in == "" || nk == 0 || (part != "c01" && part != "c02") {
-		t.Skip("VERIF_IN / VERIF_NK / VERIF_PART not set")
+	var inputs []replayInput
+	if s := os.Getenv("VERIF_INPUTS"); s != "" {
+		if err := json.Unmarshal([]byte(s), &inputs); err != nil {
+			t.Fatalf("VERIF_INPUTS: %v", err)
+		}
+	} else if in := os.Getenv("VERIF_IN"); in != "" {
+		var gaps []int
+		_ = json.Unmarshal([]byte(os.Getenv("VERIF_GAPS")), &gaps)
+		inputs = []replayInput{{Path: in, NK: abs.EnvInt("VERIF_NK", 0), Gaps: gaps, Label: "in"}}
 	}
+	if len(inputs) == 0 || (part != "c01" && part != "c02") {
+		t.Skip("VERIF_INPUTS / VERIF_PART not set")
+	}
+	seed := abs.Seed()
+	W := workers()
+	parts := runBubbles(t, W, func(w int) *abs.Result {
+		res := &abs.Result{}
+		lineNo := -1
+		for _, in := range inputs {
+			replayFile(res, in, part, seed, w, W, &lineNo)
+			if res.Fatal != "" {
+				break
+			}
+		}
+		return res
+	})
+	merge(parts).Write(t)
+}
+
+// replayFile replays the lines of one universe that fall to worker w (every W-th line).
+func replayFile(res *abs.Result, in replayInput, part string, seed int64, w, W int, lineNo *int) {
+	nk, gaps := in.NK, in.Gaps
 	isGap := make([]bool, nk)
 	for _, g := range gaps {
 		isGap[g] = true
 	}
-	seed := abs.Seed()
 	boundary := abs.KeyClasses(nk, gaps)
-	W := workers()
-
-	parts := runBubbles(t, W, func(w int) *abs.Result {
-		res := &abs.Result{}
-		gt := newGetter()
-		lineNo := -1
-		rings, calls, descs := 0, 0, 0
-		err := abs.ReadNDJSON(in, func(raw []byte) error {
-			lineNo++
-			if lineNo%W != w {
-				return nil
-			}
-			var l mcLine
-			if err := json.Unmarshal(raw, &l); err != nil {
-				return err
-			}
-			n := len(l.Ids)
-			if len(l.Look) != nk {
-				return fmt.Errorf("line has %d key classes, want %d", len(l.Look), nk)
-			}
-			descs++
-			rnd := rand.New(rand.NewSource(lineSeed(seed, raw)))
-			ages := make([]int64, n)
-			for i := range ages {
-				if l.Ids[i] != 0 {
-					ages[i] = hbAge(l.Hb[i], rnd)
-				}
-			}
-			embeddings := []struct {
-				name    string
-				classes [][]uint32
-			}{{"boundary", boundary}, {"random", abs.RandomKeyClasses(nk, gaps, rnd)}}
-			now := time.Now()
-			allMask := 0
-			for i := range l.Ids {
-				if l.Ids[i] != 0 {
-					allMask |= 1 << i
-				}
-			}
-			rfMax := len(l.Rset[0][0])
-			for zi, za := range []bool{false, true} {
-				for rf := 1; rf <= rfMax; rf++ {
-					for ei, emb := range embeddings {
-						desc := buildDesc(&l, emb.classes, ages, now)
-						r, stop, err := abs.NewRing(desc, ring.Config{ReplicationFactor: rf, ZoneAwarenessEnabled: za, HeartbeatTimeout: hbTimeout, SubringCacheDisabled: true})
-						if err != nil {
-							return fmt.Errorf("NewRing: %w", err)
-						}
-						rings++
-						caseOf := func(extra map[string]any) map[string]any {
-							c := map[string]any{"embedding": emb.name, "rf": rf, "za": za,
-								"instances": describe(&l, emb.classes, ages)}
-							for k, v := range extra {
-								c[k] = v
-							}
-							return c
-						}
-						// C02 (and the ring-wide half of the replay): replication sets
-						if part == "c02" {
-							for oi, op := range opSeq {
-								wnt := decodeRset(l.Rset[oi][zi][rf-1], n)
-								g := callRset(r, op)
-								calls++
-								if ei == 0 {
-									res.Cases++
-									if wnt.Err == "unhealthy" || (wnt.Err == "" && (wnt.mask != allMask || wnt.MaxErrors > 0 || wnt.MaxUnavailableZones > 0)) {
-										res.Nontrivial++
-									}
-								}
-								if kind := diffRset(g, wnt, za); kind != "" {
-									res.Mismatch(abs.Mismatch{
-										Sig:  fmt.Sprintf("rset:%s op=%s za=%v [%s]", kind, opNames[oi], za, features(&l, emb.classes)),
-										Case: caseOf(map[string]any{"call": "GetReplicationSetForOperation(" + opNames[oi] + ")"}), Got: g, Want: wnt})
-								}
-							}
-						}
-						for k := 0; k < nk; k++ {
-							for oi, op := range opSeq {
-								if part == "c02" && oi != 0 {
-									continue
-								}
-								wnt := decodeLookup(l.Look[k][oi][zi][rf-1], n)
-								if ei == 0 {
-									res.Cases++
-								}
-								for _, key := range emb.classes[k] {
-									v1, v2 := gt.variants()
-									if rf == 1 && v2 == 5 {
-										v2 = 4
-									}
-									for _, v := range []int{v1, v2} {
-										g := gt.call(r, v, key, op, rf)
-										calls++
-										if kind := diffLookup(g, wnt); kind != "" {
-											res.Mismatch(abs.Mismatch{
-												Sig: fmt.Sprintf("lookup:%s op=%s za=%v key=%s [%s]", kind, opNames[oi], za, keyKind(&l, k, isGap), features(&l, emb.classes)),
-												Case: caseOf(map[string]any{"call": variantNames[v], "op": opNames[oi], "key": key, "keyClass": k}),
-												Got:  g, Want: wnt})
-											break
-										}
-									}
-								}
-							}
-						}
-						stop()
-					}
-				}
-			}
-			if part == "c01" {
-				res.Nontrivial += l.Nt
-			}
-			if descs%997 == 1 {
-				res.Sample(map[string]any{"instances": describe(&l, boundary, ages), "rfMax": rfMax,
-					"expected_lookup_codes[key class][op][za][rf-1]": l.Look, "expected_replication_set_codes[op][za][rf-1]": l.Rset})
-			}
+	gt := newGetter()
+	rings, calls, descs := 0, 0, 0
+	err := abs.ReadNDJSON(in.Path, func(raw []byte) error {
+		*lineNo++
+		if *lineNo%W != w {
 			return nil
-		})
-		if err != nil {
-			res.Fatal = err.Error()
 		}
-		res.AddExtra("real_rings_built", rings)
-		res.AddExtra("real_calls", calls)
-		res.AddExtra("descriptors", descs)
-		return res
+		var l mcLine
+		if err := json.Unmarshal(raw, &l); err != nil {
+			return err
+		}
+		n := len(l.Ids)
+		if len(l.Look) != nk {
+			return fmt.Errorf("line has %d key classes, want %d", len(l.Look), nk)
+		}
+		descs++
+		rnd := rand.New(rand.NewSource(lineSeed(seed, raw)))
+		ages := make([]int64, n)
+		for i := range ages {
+			if l.Ids[i] != 0 {
+				ages[i] = hbAge(l.Hb[i], rnd)
+			}
+		}
+		embeddings := []struct {
+			name    string
+			classes [][]uint32
+		}{{"boundary", boundary}, {"random", abs.RandomKeyClasses(nk, gaps, rnd)}}
+		now := time.Now()
+		allMask := 0
+		for i := range l.Ids {
+			if l.Ids[i] != 0 {
+				allMask |= 1 << i
+			}
+		}
+		rfMax := len(l.Rset[0][0])
+		var sample map[string]any
+		for zi, za := range []bool{false, true} {
+			for rf := 1; rf <= rfMax; rf++ {
+				for ei, emb := range embeddings {
+					desc := buildDesc(&l, emb.classes, ages, now)
+					r, stop, err := abs.NewRing(desc, ring.Config{ReplicationFactor: rf, ZoneAwarenessEnabled: za, HeartbeatTimeout: hbTimeout, SubringCacheDisabled: true})
+					if err != nil {
+						return fmt.Errorf("NewRing: %w", err)
+					}
+					rings++
+					caseOf := func(extra map[string]any) map[string]any {
+						c := map[string]any{"universe": in.Label, "embedding": emb.name, "rf": rf, "za": za,
+							"instances": describe(&l, emb.classes, ages)}
+						for k, v := range extra {
+							c[k] = v
+						}
+						return c
+					}
+					// C02: ring-wide replication sets
+					if part == "c02" {
+						for oi, op := range opSeq {
+							wnt := decodeRset(l.Rset[oi][zi][rf-1], n)
+							g := callRset(r, op)
+							calls++
+							if ei == 0 {
+								res.Cases++
+								if wnt.Err == "unhealthy" || (wnt.Err == "" && (wnt.mask != allMask || wnt.MaxErrors > 0 || wnt.MaxUnavailableZones > 0)) {
+									res.Nontrivial++
+								}
+							}
+							if kind := diffRset(g, wnt, za); kind != "" {
+								res.Mismatch(abs.Mismatch{
+									Sig:  fmt.Sprintf("rset:%s op=%s za=%v", kind, opNames[oi], za),
+									Case: caseOf(map[string]any{"call": "GetReplicationSetForOperation(" + opNames[oi] + ")"}), Got: g, Want: wnt})
+							} else if oi == 2 && zi == 1 && rf == rfMax && ei == 0 {
+								sample = caseOf(map[string]any{"call": "GetReplicationSetForOperation(Read)", "specification_and_code_agree_on": wnt})
+							}
+						}
+					}
+					for k := 0; k < nk; k++ {
+						for oi, op := range opSeq {
+							if part == "c02" && oi != 0 {
+								continue
+							}
+							wnt := decodeLookup(l.Look[k][oi][zi][rf-1], n)
+							if ei == 0 {
+								res.Cases++
+							}
+							for _, key := range emb.classes[k] {
+								v1, v2 := gt.variants()
+								if rf == 1 && v2 == 5 {
+									v2 = 4
+								}
+								for _, v := range []int{v1, v2} {
+									g := gt.call(r, v, key, op, rf)
+									calls++
+									if kind := diffLookup(g, wnt); kind != "" {
+										res.Mismatch(abs.Mismatch{
+											Sig: fmt.Sprintf("lookup:%s op=%s key=%s [%s]", kind, opNames[oi], keyKind(&l, k, isGap), features(&l, emb.classes)),
+											Case: caseOf(map[string]any{"call": variantNames[v], "op": opNames[oi], "key": key, "keyClass": k}),
+											Got:  g, Want: wnt})
+										break
+									} else if part == "c01" && sample == nil && oi == 0 && zi == 1 && rf == rfMax && k == nk-1 {
+										sample = caseOf(map[string]any{"call": variantNames[v], "op": opNames[oi], "key": key, "keyClass": k, "specification_and_code_agree_on": wnt})
+									}
+								}
+							}
+						}
+					}
+					stop()
+				}
+			}
+		}
+		if part == "c01" {
+			res.Nontrivial += l.Nt
+		}
+		if descs%499 == 250 && sample != nil {
+			res.Sample(sample)
+		}
+		return nil
 	})
-	merge(parts).Write(t)
+	if err != nil {
+		res.Fatal = in.Label + ": " + err.Error()
+	}
+	add := func(k string, v int) {
+		old := 0
+		if res.Extra != nil {
+			old, _ = res.Extra[k].(int)
+		}
+		res.AddExtra(k, old+v)
+	}
+	add("real_rings_built", rings)
+	add("real_calls", calls)
+	add("descriptors", descs)
 }
 
 func describe(l *mcLine, classes [][]uint32, ages []int64) []map[string]any {
